@@ -70,7 +70,11 @@ func c07Fetch(d *c17Daemon, from *c17Face, name enc.Name, answer bool) (hit bool
 	return false, false, false
 }
 
-func c07Mgmt(c *h.Ctx) {
+func c07Mgmt(c *h.Ctx) { c07MgmtAs(c, "C07") }
+
+// c07MgmtAs runs the scenario reporting under property prop (C17 uses it for the clause "an accepted
+// cache-capacity command has exactly the table effect its parameters describe").
+func c07MgmtAs(c *h.Ctx, prop string) {
 	if !c.Case("mgmt") {
 		return
 	}
@@ -99,7 +103,7 @@ func c07Mgmt(c *h.Ctx) {
 			return false
 		}
 		if resp.StatusCode != 200 {
-			d.fail("C07:management-capacity-command-rejected", id, fmt.Sprintf("cs/config Capacity=%d was answered with %s", k, respStr(resp)), nil)
+			d.fail(prop+":management-capacity-command-rejected", id, fmt.Sprintf("cs/config Capacity=%d was answered with %s", k, respStr(resp)), nil)
 			return false
 		}
 		return true
@@ -143,7 +147,7 @@ func c07Mgmt(c *h.Ctx) {
 		time.Sleep(5 * time.Millisecond)
 		for t := range touched {
 			if n := fwfw.Threads[t].GetNumCsEntries(); n > k2 {
-				d.fail("C07:management-capacity-exceeded", id, fmt.Sprintf("forwarding thread %d keeps %d packets cached after cs/config lowered the capacity from %d to %d and new packets were inserted", t, n, k1, k2), map[string]any{"configured": table.CsCapacity()})
+				d.fail(prop+":management-capacity-exceeded", id, fmt.Sprintf("forwarding thread %d keeps %d packets cached after cs/config lowered the capacity from %d to %d and new packets were inserted", t, n, k1, k2), map[string]any{"configured": table.CsCapacity()})
 				return
 			}
 		}
@@ -161,7 +165,7 @@ func c07Mgmt(c *h.Ctx) {
 		}
 		for t := range touched {
 			if hits[t] > k2 {
-				d.fail("C07:management-capacity-exceeded", id, fmt.Sprintf("%d names handled by forwarding thread %d are answered from the cache although cs/config set the capacity to %d", hits[t], t, k2), nil)
+				d.fail(prop+":management-capacity-exceeded", id, fmt.Sprintf("%d names handled by forwarding thread %d are answered from the cache although cs/config set the capacity to %d", hits[t], t, k2), nil)
 				return
 			}
 		}
